@@ -73,8 +73,9 @@ from_integer(Integer value, Result& result)
         result.push_back('-');
         ++count;
     }
-    while (--p >= buf)
+    while (p != buf)
     {
+        --p;
         result.push_back(*p);
     }
 
@@ -120,8 +121,9 @@ integer_to_hex(Integer value, Result& result)
         result.push_back('-');
         ++count;
     }
-    while (--p >= buf)
+    while (p != buf)
     {
+        --p;
         result.push_back(*p);
     }
 
